@@ -462,7 +462,6 @@ static Outcome execute_unit(const Case& c) {
         int axis = (int)c.a[2][0];
         ROpt want = ref::cosine_similarity(a, b, axis, CS_EPS);
         if (!want) return Outcome::bad("wrong", "harness: case outside the domain was enumerated");
-        if (want->dim() == 0) return Outcome::ok(false, 3);   // 0-dim result (1-d operands): nmtools has no 0-dim arrays, not enumerated
         auto bs = ref::broadcast_shapes({sa, sb}); long d = (long)bs->size(); long ax = axis < 0 ? axis + d : axis;
         return both(view::cosine_similarity(A, Bm, axis), na::cosine_similarity(A, Bm, axis), want, (*bs)[(size_t)ax] >= 2, 1e-9);
     }
